@@ -12,6 +12,7 @@ import (
 	"fmt"
 	"math"
 	"os"
+	"reflect"
 	"sort"
 	"strings"
 	"time"
@@ -60,6 +61,8 @@ type fcase struct {
 	Opts  []optv   `json:"opts"`
 	Keep  []string `json:"keep"`
 	May   []string `json:"may"`
+	// pairs of roles whose share set (storage reachable from both) must be empty after the call
+	Disjoint [][]string `json:"disjoint"`
 }
 
 func (c *fcase) opt(name string) bool {
@@ -162,6 +165,7 @@ func digest(x interface{}) string {
 type frameRun struct {
 	roles map[string]interface{}
 	order []string
+	strct map[string]interface{} // roles that are walked (share set), not digested
 	call  func() error
 	note  string
 }
@@ -175,6 +179,58 @@ func (f *frameRun) role(name string, x interface{}) {
 	}
 	f.roles[name] = x
 }
+
+// object returns the Go value of a role for the share-set walk (nil: not present / not an object)
+func (f *frameRun) object(name string) interface{} {
+	if x, ok := f.strct[name]; ok {
+		return x
+	}
+	switch x := f.roles[name].(type) {
+	case func() interface{}, string, nil:
+		return nil
+	default:
+		return x
+	}
+}
+
+func (f *frameRun) structural(name string, x interface{}) {
+	if f.strct == nil {
+		f.strct = map[string]interface{}{}
+	}
+	f.strct[name] = x
+}
+
+// reuseIS registers the work-space structure handed to the call.  In mode "reuse" the caller
+// passes ONE, initially empty, InSitu structure to two consecutive calls with different inputs
+// (flags such as InitializeH are kept, all buffers start as nil).
+func reuseIS(f *frameRun, cache map[string]interface{}, c *fcase, is interface{}) interface{} {
+	if c.Mode == "reuse" {
+		if old, ok := cache["IS"]; ok {
+			is = old
+		} else {
+			clearBuffers(reflect.ValueOf(is).Elem())
+			cache["IS"] = is
+		}
+	}
+	f.structural("IS", is)
+	return is
+}
+
+func clearBuffers(v reflect.Value) {
+	for i := 0; i < v.NumField(); i++ {
+		fld := v.Field(i)
+		switch fld.Kind() {
+		case reflect.Interface, reflect.Ptr, reflect.Slice, reflect.Map:
+			if fld.CanSet() {
+				fld.Set(reflect.Zero(fld.Type()))
+			}
+		case reflect.Struct:
+			clearBuffers(fld)
+		}
+	}
+}
+
+var inputScale = 1.0 // second call of mode "reuse": other input values
 
 func elemType(e string) ScalarType {
 	switch e {
@@ -190,7 +246,7 @@ func denseMat(e string, vals []float64, r, c int) Matrix {
 	m := NullDenseMatrix(elemType(e), r, c)
 	for i := 0; i < r; i++ {
 		for j := 0; j < c; j++ {
-			m.At(i, j).SetFloat64(vals[i*c+j])
+			m.At(i, j).SetFloat64(vals[i*c+j] * inputScale)
 		}
 	}
 	return m
@@ -198,7 +254,7 @@ func denseMat(e string, vals []float64, r, c int) Matrix {
 func denseVec(e string, vals []float64) Vector {
 	v := NullDenseVector(elemType(e), len(vals))
 	for i, x := range vals {
-		v.At(i).SetFloat64(x)
+		v.At(i).SetFloat64(x * inputScale)
 	}
 	return v
 }
@@ -274,7 +330,7 @@ func rootFn(x ConstVector) (MagicVector, error) { // x_i^2 - (i+2) = 0
 
 /* ---------------------------------------------------------------- entries */
 
-func buildAlgorithm(c *fcase) *frameRun {
+func buildAlgorithm(c *fcase, cache map[string]interface{}) *frameRun {
 	f := &frameRun{}
 	e, n := c.Elem, c.N
 	bufs := c.Mode != "none"
@@ -301,6 +357,7 @@ func buildAlgorithm(c *fcase) *frameRun {
 			f.role("IS.A", is.A)
 			f.role("IS.X", is.X)
 			f.role("IS.T", is.T)
+			is = reuseIS(f, cache, c, is).(*backSubstitution.InSitu)
 		}
 		f.call = func() error { _, err := backSubstitution.Run(A, b, is); return err }
 	case "cholesky.Run":
@@ -308,6 +365,7 @@ func buildAlgorithm(c *fcase) *frameRun {
 		args := []interface{}{cholesky.LDL{c.opt("LDL")}, cholesky.ForcePD{c.opt("ForcePD")}}
 		if bufs {
 			is := &cholesky.InSitu{L: nullM(e, n, n), D: nullM(e, n, n), S: nullS(e), T: nullS(e)}
+			is = reuseIS(f, cache, c, is).(*cholesky.InSitu)
 			f.role("IS.L", is.L)
 			f.role("IS.D", is.D)
 			f.role("IS.S", is.S)
@@ -320,6 +378,7 @@ func buildAlgorithm(c *fcase) *frameRun {
 		args := []interface{}{determinant.PositiveDefinite{c.opt("PositiveDefinite")}, determinant.LogScale{c.opt("LogScale")}}
 		if bufs {
 			is := &determinant.InSitu{Cholesky: cholesky.InSitu{L: nullM(e, n, n), D: nullM(e, n, n), S: nullS(e), T: nullS(e)}}
+			is = reuseIS(f, cache, c, is).(*determinant.InSitu)
 			f.role("IS.L", is.Cholesky.L)
 			f.role("IS.D", is.Cholesky.D)
 			f.role("IS.S", is.Cholesky.S)
@@ -337,6 +396,7 @@ func buildAlgorithm(c *fcase) *frameRun {
 		args := []interface{}{eigensystem.ComputeEigenvectors{c.opt("ComputeEigenvectors")}, eigensystem.Symmetric{c.opt("Symmetric")}}
 		if bufs {
 			is := &eigensystem.InSitu{Eigenvalues: nullV(e, n), Eigenvectors: nullM(e, n, n)}
+			is = reuseIS(f, cache, c, is).(*eigensystem.InSitu)
 			is.QrAlgorithm.H, is.QrAlgorithm.InitializeH = nullM(e, n, n), true
 			is.QrAlgorithm.U, is.QrAlgorithm.InitializeU = nullM(e, n, n), true
 			f.role("IS.Eigenvalues", is.Eigenvalues)
@@ -374,6 +434,10 @@ func buildAlgorithm(c *fcase) *frameRun {
 		args := []interface{}{}
 		if bufs {
 			is := gramSchmidt.InSitu{Q: nullM(e, n, n), R: nullM(e, n, n)}
+			if c.Mode == "reuse" {
+				is = gramSchmidt.InSitu{} // passed by value: the callee cannot keep anything in it
+			}
+			f.structural("IS", &is)
 			f.role("IS.Q", is.Q)
 			f.role("IS.R", is.R)
 			args = append(args, is)
@@ -384,6 +448,7 @@ func buildAlgorithm(c *fcase) *frameRun {
 		args := []interface{}{hessenbergReduction.ComputeU{c.opt("ComputeU")}, hessenbergReduction.SetZero{c.opt("SetZero")}}
 		if bufs {
 			is := &hessenbergReduction.InSitu{H: nullM(e, n, n), U: nullM(e, n, n), X: nullV(e, n), Nu: nullV(e, n), T4: nullV(e, n)}
+			is = reuseIS(f, cache, c, is).(*hessenbergReduction.InSitu)
 			if alias {
 				is.H = a
 			}
@@ -401,6 +466,7 @@ func buildAlgorithm(c *fcase) *frameRun {
 		args := []interface{}{householderBidiagonalization.ComputeU{c.opt("ComputeU")}, householderBidiagonalization.ComputeV{c.opt("ComputeV")}}
 		if bufs {
 			is := &householderBidiagonalization.InSitu{A: nullM(e, m, n), U: nullM(e, m, m), V: nullM(e, n, n), X: nullV(e, m), Nu: nullV(e, m), T4: nullV(e, m)}
+			is = reuseIS(f, cache, c, is).(*householderBidiagonalization.InSitu)
 			if alias {
 				is.A = a
 			}
@@ -418,6 +484,7 @@ func buildAlgorithm(c *fcase) *frameRun {
 		args := []interface{}{householderTridiagonalization.ComputeU{c.opt("ComputeU")}}
 		if bufs {
 			is := &householderTridiagonalization.InSitu{A: nullM(e, n, n), U: nullM(e, n, n), X: nullV(e, n), Nu: nullV(e, n), T4: nullV(e, n)}
+			is = reuseIS(f, cache, c, is).(*householderTridiagonalization.InSitu)
 			if alias {
 				is.A = a
 			}
@@ -443,6 +510,7 @@ func buildAlgorithm(c *fcase) *frameRun {
 		args := []interface{}{matrixInverse.PositiveDefinite{c.opt("PositiveDefinite")}, matrixInverse.UpperTriangular{c.opt("UpperTriangular")}}
 		if bufs {
 			is := &matrixInverse.InSitu{Id: nullM(e, n, n), A: nullM(e, n, n), B: nullV(e, n)}
+			is = reuseIS(f, cache, c, is).(*matrixInverse.InSitu)
 			is.Cholesky.L, is.Cholesky.D = nullM(e, n, n), nullM(e, n, n)
 			f.role("IS.Id", is.Id)
 			f.role("IS.A", is.A)
@@ -468,6 +536,7 @@ func buildAlgorithm(c *fcase) *frameRun {
 		args := []interface{}{qrAlgorithm.ComputeU{c.opt("ComputeU")}, qrAlgorithm.Symmetric{c.opt("Symmetric")}, qrAlgorithm.Epsilon{1e-12}}
 		if bufs {
 			is := &qrAlgorithm.InSitu{InitializeH: true, InitializeU: true, H: nullM(e, n, n), U: nullM(e, n, n), T4: nullV(e, n), X: nullV(e, 3), Nu: nullV(e, 3)}
+			is = reuseIS(f, cache, c, is).(*qrAlgorithm.InSitu)
 			if alias {
 				is.H = a
 			}
@@ -485,6 +554,7 @@ func buildAlgorithm(c *fcase) *frameRun {
 		args := []interface{}{svd.ComputeU{c.opt("ComputeU")}, svd.ComputeV{c.opt("ComputeV")}}
 		if bufs {
 			is := &svd.InSitu{A: nullM(e, m, n), U: nullM(e, m, m), V: nullM(e, n, n)}
+			is = reuseIS(f, cache, c, is).(*svd.InSitu)
 			f.role("IS.A", is.A)
 			f.role("IS.U", is.U)
 			f.role("IS.V", is.V)
@@ -636,6 +706,7 @@ func buildAlgorithm(c *fcase) *frameRun {
 		}
 		if bufs {
 			is := &newton.InSitu{T1: nullV("float64", n)}
+			is = reuseIS(f, cache, c, is).(*newton.InSitu)
 			f.role("IS.T1", is.T1)
 			args = append(args, is)
 		}
@@ -680,6 +751,7 @@ func buildAlgorithm(c *fcase) *frameRun {
 		}
 		if bufs {
 			is := &saga.InSitu{T1: NullDenseFloat64Vector(n)}
+			is = reuseIS(f, cache, c, is).(*saga.InSitu)
 			f.role("IS.T1", is.T1)
 			args = append(args, is)
 		}
@@ -734,7 +806,7 @@ func storedMat(e, st string, vals []float64, r, c int) Matrix {
 	for i := 0; i < r; i++ {
 		for j := 0; j < c; j++ {
 			if vals[i*c+j] != 0 {
-				m.At(i, j).SetFloat64(vals[i*c+j])
+				m.At(i, j).SetFloat64(vals[i*c+j] * inputScale)
 			}
 		}
 	}
@@ -967,17 +1039,33 @@ func frame(casesPath, resultsPath, tracePath string) {
 			return e
 		}
 		ncases++
-		var f *frameRun
+		var f, prev *frameRun
+		cache := map[string]interface{}{}
 		bmsg := vh.Try(func() {
 			switch {
 			case strings.HasPrefix(c.Entry, "dist.") || strings.HasPrefix(c.Entry, "estimator."):
 				f = buildDist(c)
 			case strings.HasSuffix(c.Entry, ".op"):
 				f = buildOp(c)
+			case c.Mode == "reuse":
+				// first call with the caller's (empty) work-space structure and other inputs
+				inputScale = 1.5
+				prev = buildAlgorithm(c, cache)
+				inputScale = 1.0
+				if prev != nil {
+					vh.Try(func() { prev.call() })
+					f = buildAlgorithm(c, cache)
+					for _, r := range prev.order {
+						if !strings.HasPrefix(r, "IS.") {
+							f.role("prev."+r, prev.roles[r])
+						}
+					}
+				}
 			default:
-				f = buildAlgorithm(c)
+				f = buildAlgorithm(c, cache)
 			}
 		})
+		inputScale = 1.0
 		name := c.Entry
 		if c.Op != "" {
 			name += ":" + c.Op
@@ -1026,6 +1114,32 @@ func frame(casesPath, resultsPath, tracePath string) {
 			vh.Mismatch(out, s, vh.M{"mode": "frame", "case": c, "why": dmsg})
 			return nil
 		}
+		// share sets that must be empty: a work-space structure keeps no reference to the caller's
+		// inputs, a clone reaches nothing its source reaches
+		retained := []string{}
+		if outcome != "panic" {
+			for _, pr := range c.Disjoint {
+				if len(pr) != 2 {
+					continue
+				}
+				x, y := f.object(pr[0]), f.object(pr[1])
+				if x == nil || y == nil {
+					continue
+				}
+				var cm []span
+				wmsg := vh.Try(func() { cm = common(reach(x), reach(y)) })
+				if wmsg != "" {
+					vh.Fatal("driver: walking", name, pr, wmsg)
+				}
+				rolesChecked++
+				if len(cm) > 0 {
+					retained = append(retained, pr[0]+"~"+pr[1])
+					s := copyM(sig)
+					s["what"], s["role"] = "shares_storage", pr[0]+"~"+pr[1]
+					vh.Mismatch(out, s, vh.M{"mode": "frame", "case": c, "role": pr, "common": cm[0].path, "bytes": cm[0].hi - cm[0].lo, "n_common": len(cm)})
+				}
+			}
+		}
 		changed := []string{}
 		for _, r := range f.order {
 			if before[r] != after[r] {
@@ -1053,7 +1167,7 @@ func frame(casesPath, resultsPath, tracePath string) {
 			roles = append(roles, vh.M{"role": r, "changed": before[r] != after[r]})
 		}
 		tr.Put(vh.M{"entry": c.Entry, "op": c.Op, "mode": c.Mode, "elem": c.Elem, "n": c.N, "sr": c.Sr, "sa": c.Sa, "sb": c.Sb,
-			"opts": c.Opts, "outcome": outcome, "roles": roles})
+			"opts": c.Opts, "outcome": outcome, "roles": roles, "shared": retained})
 		return nil
 	})
 	if err != nil {
